@@ -36,4 +36,11 @@ def reuse(repo, rep, module: str, mapping: Dict[str, str], only=None) -> None:
     """Run rules.<module>.run and keep only the instances of the rules in `mapping` (source rule id -> rule id under this property);
     `only(subject)` optionally restricts the instances by their subject text."""
     mod = importlib.import_module(f"rules.{module}")
-    mod.run(repo, _Filter(rep, mapping, only), "quick")
+    from sa.model import AnalysisError
+
+    try:
+        mod.run(repo, _Filter(rep, mapping, only), "quick")
+    except AnalysisError as e:
+        # the source rules stopped (a lost anchor somewhere in that module): the re-used rules were not (fully) evaluated - that is an
+        # analysis error of *these* rule ids only; whatever else the caller checks goes on
+        rep.error(f"{'/'.join(sorted(set(mapping.values())))}: the rules of {module} they are taken from could not be evaluated ({e})")
